@@ -17,8 +17,8 @@ func (s *Store) RESTMapper() meta.RESTMapper { return &restMapper{s} }
 
 // UnregisterKind removes a kind (an API that disappeared).
 func (s *Store) UnregisterKind(gk schema.GroupKind) {
-	s.mu.Lock()
-	defer s.mu.Unlock()
+	s.kmu.Lock()
+	defer s.kmu.Unlock()
 	delete(s.kinds, gk)
 }
 
